@@ -221,12 +221,22 @@ def run_harness(exe, args, tier, scratch, deadline_s, outpath, env_extra=None, t
         env.update(env_extra)
     cmd = [exe, "--out=" + outpath, "--tier=" + tier, "--deadline=%d" % deadline_s] + list(args)
     t0 = time.time()
+    # own process group: on a driver timeout the harness and every worker it forked are killed together, nothing is left behind
+    p = subprocess.Popen(cmd, env=env, cwd=scratch, stdout=subprocess.DEVNULL, stderr=subprocess.PIPE, start_new_session=True)
     try:
-        r = subprocess.run(cmd, env=env, cwd=scratch, stdout=subprocess.DEVNULL, stderr=subprocess.PIPE,
-                           timeout=timeout or (deadline_s * 2 + 600))
-        rc, err = r.returncode, r.stderr.decode(errors="replace")[-3000:]
+        _, e = p.communicate(timeout=timeout or (deadline_s * 2 + 600))
+        rc, err = p.returncode, e.decode(errors="replace")[-3000:]
     except subprocess.TimeoutExpired:
         rc, err = -999, "driver timeout"
+    finally:
+        try:
+            os.killpg(p.pid, 9)          # workers that outlived the harness (orphans of a killed or crashed parent)
+        except (ProcessLookupError, PermissionError):
+            pass
+        try:
+            p.communicate(timeout=5)
+        except Exception:
+            pass
     return rc, err, time.time() - t0
 
 
